@@ -31,6 +31,9 @@ type Program struct {
 	// Faulty: a deliberate panic/fault was placed.
 	Faulty bool
 	Parts  Parts
+	// ShadowedGlobals are the package-level variables which main shadows with
+	// a variable of its own (sorted).
+	ShadowedGlobals []string
 }
 
 // Var is a variable in scope.
@@ -82,18 +85,20 @@ type Gen struct {
 	depthVar  string
 	inClosure int
 	globals   []*Var
-	mainStmts []string
-	needIdx   bool
-	needIdent bool
-	needSort  bool
-	lbl       int
-	faultAt   int
-	stmtCount int
-	faulty    bool
-	blockID   int
-	newNeeded map[string]int
-	methods   []*fnInfo
-	pmethods  []*fnInfo
+	// shadowedGlobals: package-level variables which main redeclares as its own.
+	shadowedGlobals map[string]bool
+	mainStmts       []string
+	needIdx         bool
+	needIdent       bool
+	needSort        bool
+	lbl             int
+	faultAt         int
+	stmtCount       int
+	faulty          bool
+	blockID         int
+	newNeeded       map[string]int
+	methods         []*fnInfo
+	pmethods        []*fnInfo
 	// clause: the block being generated is directly a switch clause body
 	unkeyed      int
 	nextIsClause bool
